@@ -62,9 +62,11 @@ class Goldens:
             for k in need:
                 a, b = ra[k], rb[k]
                 g = dict(a)
-                if _norm(a) != _norm(b):
+                if a.get("resource_limit") or b.get("resource_limit") or (k == pick and rp[k].get("resource_limit")):
+                    g["resource_limit"] = True  # at the recursion limit: not compared (oracles.c18_violations)
+                elif _norm(a) != _norm(b):
                     g["disagree"] = {"A": a, "B": b}
-                if k == pick and _norm(rp[k]) != _norm(a):
+                elif k == pick and _norm(rp[k]) != _norm(a):
                     g["disagree"] = {"A": a, "P": rp[k]}
                 if g.get("disagree"):
                     g["batch"] = sorted(need)  # what the golden processes compiled together
